@@ -189,6 +189,38 @@ pub fn segment(rng: &mut Rng, class: u64, len: usize, so_far: &[u8]) -> Vec<u8> 
     }
 }
 
+/// Match-free noise in which "lazy-match upgrade chains" straddle the positions where the compressor closes
+/// a block on its own (every 31 * 1024 + 1 recorded bytes of match-free data). A chain is a text T placed
+/// at position p such that the best earlier match at p + j has length 3 + j (plants T[j .. 2j+3] sit 1-3 KiB
+/// before p): a lazy parser defers the match at every step, recording one literal per step, so the block
+/// boundary falls into an iteration that leaves a match pending.
+pub fn chain_boundary_plain(rng: &mut Rng, nblocks: usize, tail: usize) -> Vec<u8> {
+    const B: usize = 31 * 1024 + 1;
+    let n = B * nblocks + tail;
+    let mut v = rng.bytes(n);
+    for m in 1..=nblocks {
+        let k = rng.range(3, 12); // steps in the chain
+        let t = rng.bytes(2 * k + 4);
+        // chain start: the boundary falls on one of its steps (blocks may start a byte or two late)
+        let p = m * B - rng.range(0, k + 2).min(m * B);
+        if p + t.len() >= n || p < 4000 {
+            continue;
+        }
+        v[p..p + t.len()].copy_from_slice(&t);
+        // plants, each between two noise bytes, 1..3 KiB before p, in random order of position
+        let mut q = p - rng.range(1200, 3000);
+        for j in 0..k {
+            let piece = &t[j..2 * j + 3];
+            if q + piece.len() + 2 >= p {
+                break;
+            }
+            v[q..q + piece.len()].copy_from_slice(piece);
+            q += piece.len() + rng.range(1, 9);
+        }
+    }
+    v
+}
+
 /// 1..4 concatenated segments.
 pub fn plaintext(rng: &mut Rng, total: usize) -> Vec<u8> {
     let nseg = if total < 8 { 1 } else { rng.range(1, 4) };
